@@ -348,6 +348,8 @@ pub fn check_edit(c: &EditCase, st: &mut Stats, pid: &str) -> Vec<Viol> {
             return Err("initial state not constructible".into());
         };
         let early: Vec<Paragraph> = (0..model.len()).filter_map(|i| live.para(i)).collect();
+        // a second handle to the whole document, taken before the first operation
+        let early_doc: Option<Deb822> = live.doc.as_ref().and_then(|d| <Deb822 as AstNode>::cast(d.syntax().clone()));
         // which model paragraph each early handle stands for (paragraph-level operations shift or drop them)
         let mut early_map: Vec<Option<usize>> = if early.len() == model.len() { (0..early.len()).map(Some).collect() } else { vec![] };
         let remap = |map: &mut Vec<Option<usize>>, op: &Op, len_before: usize| match op {
@@ -393,6 +395,30 @@ pub fn check_edit(c: &EditCase, st: &mut Stats, pid: &str) -> Vec<Viol> {
         let after = live.text();
         // handles taken before the first operation see every later edit of their paragraph, whichever handle made it
         let mut out = check_state(&live, &model, &early, &early_map);
+        if let Some(ed) = &early_doc {
+            if ed.to_string() != after {
+                out.push(viol("early-handle-sees-edit", format!("{:?}: the document handle taken before the first operation prints {:?}, the document {:?}", op, ed.to_string(), after)));
+            }
+        }
+        // what a paragraph handle prints is part of what the document prints, and reads as that paragraph
+        for (i, m) in model.iter().enumerate() {
+            if let Some(h) = live.para(i) {
+                let ht = h.to_string();
+                if !after.contains(&ht) {
+                    out.push(viol("list-model", format!("{:?}: paragraph {} prints {:?}, which is not part of the document {:?}", op, i, ht, after)));
+                } else if !m.is_empty() {
+                    match Deb822::from_str(&ht) {
+                        Ok(d) => {
+                            let re: DModel = d.paragraphs().map(|p| p.items().collect()).collect();
+                            if strip_empty(&re) != vec![m.clone()] {
+                                out.push(viol("list-model", format!("{:?}: paragraph {} prints {:?}, which reads as {:?}, model {:?}", op, i, ht, re, m)));
+                            }
+                        }
+                        Err(e) => out.push(viol("list-model", format!("{:?}: paragraph {} prints {:?}, which does not parse: {}", op, i, ht, e.to_string().replace('\n', "; ")))),
+                    }
+                }
+            }
+        }
         if let (Some(r), Op::Rename(p, k, _)) = (returned, op) {
             let had = model_before.get(*p).map_or(false, |pp| pp.iter().any(|(kk, _)| kk == k));
             if r != had {
